@@ -72,9 +72,19 @@ type valueSpec struct {
 	desc  string
 	docs  [2][]byte // the value's CBE and CTE documents (made with a separate, fresh marshaler)
 	obj   interface{} // one shared object for "same value marshaled by several threads"
+	wrapOf *valueSpec // the type is a wrapper around this spec's type
+	forced *gen.TypeSpec // the type was chosen, not drawn (a declared unsupported type)
 }
 
-func (s *valueSpec) build() gen.Val { return gen.DrawValue(tape.Replay(s.draws), s.vo) }
+func (s *valueSpec) build() gen.Val {
+	if s.wrapOf != nil {
+		return gen.DrawWrapper(tape.Replay(s.draws), s.wrapOf.build)
+	}
+	if s.forced != nil {
+		return s.forced.NewValue(tape.Replay(s.draws))
+	}
+	return gen.DrawValue(tape.Replay(s.draws), s.vo)
+}
 
 func marshalShared(sess *iterator.Session, cfg *configuration.Configuration, f gen.Format, v interface{}, w simio.W) (err error) {
 	defer func() {
@@ -114,7 +124,7 @@ func unmarshalShared(sess *builder.Session, cfg *configuration.Configuration, f 
 	return b.GetBuiltObject(), err
 }
 
-var biasNames = []string{"uniform", "sticky", "switch-at-install", "round-robin", "starve-thread-0"}
+var biasNames = []string{"uniform", "sticky", "switch-at-cache-miss", "round-robin", "starve-thread-0"}
 
 func runC17(e *Env) Outcome {
 	t := e.T
@@ -147,9 +157,31 @@ func runC17(e *Env) Outcome {
 		vo.Recursive = vo.Recursive || t.Bool("force-recursive")
 		vo.Unsupported = t.Chance("unsupported", 1, 5)
 		vo.NoCycles = !cfgd.Recursion
+		// Related types: the second type may be built AROUND the first one
+		// (fields before, a container of the first type, fields after), so that
+		// one thread needs the inner type while another needs the type that
+		// contains it.
+		var wrapOf *valueSpec
+		if i > 0 && t.Chance("wrap-first-type", 1, 2) {
+			wrapOf = specs[0]
+		}
+		var forced *gen.TypeSpec
+		if wrapOf == nil && t.Chance("declared-unsupported-type", 1, 8) {
+			ts := gen.DeclaredUnsupported(t, vo)
+			forced = &ts
+		}
 		start := len(t.Rec)
-		v := gen.DrawValue(t, vo)
-		sp := &valueSpec{vo: vo, desc: v.Desc}
+		var v gen.Val
+		switch {
+		case wrapOf != nil:
+			v = gen.DrawWrapper(t, wrapOf.build)
+			e.Count("runs_with_related_types", 1)
+		case forced != nil:
+			v = forced.NewValue(t)
+		default:
+			v = gen.DrawValue(t, vo)
+		}
+		sp := &valueSpec{vo: vo, desc: v.Desc, wrapOf: wrapOf, forced: forced}
 		for _, r := range t.Rec[start:] {
 			sp.draws = append(sp.draws, r.V)
 		}
@@ -309,9 +341,9 @@ func runC17(e *Env) Outcome {
 			} else {
 				choice = t.Intn("sched", n)
 			}
-		case 2: // run a thread until it has installed a placeholder, then run the others
+		case 2: // run a thread until it is about to generate a type (cache miss), then run the others
 			k := idxOf(last)
-			if k >= 0 && !strings.HasSuffix(runnable[k].LastSite, ":installed") && !strings.HasSuffix(runnable[k].LastSite, ":generated") && t.Chance("sched-switch", 1, 8) == false {
+			if k >= 0 && !strings.HasSuffix(runnable[k].LastSite, ":miss") && t.Chance("sched-switch", 1, 8) == false {
 				choice = k
 			} else {
 				choice = t.Intn("sched", n)
@@ -375,12 +407,10 @@ func runC17(e *Env) Outcome {
 	e.Count("probe:blocked_thread_released_later", s.Released)
 	for _, st := range s.Trace {
 		switch {
-		case strings.HasSuffix(st, ":lost"):
-			e.Count("probe:LoadOrStore_lost_the_race", 1)
-		case strings.HasSuffix(st, ":ph-enter"):
-			e.Count("probe:placeholder_entered", 1)
-		case strings.HasSuffix(st, ":installed"):
-			e.Count("probe:placeholder_installed", 1)
+		case strings.HasSuffix(st, ":miss"):
+			e.Count("probe:type_cache_miss_about_to_generate", 1)
+		case strings.HasSuffix(st, ":stored"):
+			e.Count("probe:generation_finished", 1)
 		}
 	}
 	if shareObject {
